@@ -524,11 +524,49 @@ def mutations_of_valid(info, td, r, tier, harvested):
     return out
 
 
+def amplified(td, harvested):
+    """BGP-LS attribute values in which a container TLV holds MANY sub-TLVs: (a) k copies of the container itself appended to
+    its own value, (b) the first sub-TLV of its tail repeated k times.  The clean decoders are linear in the size; a decoder
+    that hands every sub-TLV the rest of its parent, or restarts, is exponential / quadratic in k and runs out of budget."""
+    containers = (1106, 1107, 1108, 1162, 1034, 1036, 1035, 1158, 1099, 1100)
+    out = []
+    hs = harvested.get('ls.attr', [])
+    for sp in td.batch([{'op': 'tlv.split', 'inst': 'ls.attr', 'hex': h.hex()} for h in hs]):
+        for it in sp['items']:
+            v = bytes.fromhex(it['v'])
+            if it['t'] not in containers or not (4 <= len(v) <= 120):
+                continue
+            t = it['t']
+
+            def tlv(tt, val):
+                return struct.pack('!HH', tt, len(val)) + val
+            for k in (6, 12, 18, 24, 30):
+                big = v + tlv(t, v) * k
+                if len(big) <= 3900:
+                    out.append(tlv(t, big))
+                for fixed in (0, 4, 8, 12, 16, 20, 22, 24, 28):
+                    tail = v[fixed:]
+                    if len(tail) >= 4:
+                        ln = struct.unpack('!H', tail[2:4])[0]
+                        if 4 + ln <= len(tail):
+                            big2 = v + tail[:4 + ln] * k
+                            if len(big2) <= 3900:
+                                out.append(tlv(t, big2))
+    seen = []
+    for b in out:
+        if b not in seen:
+            seen.append(b)
+    return seen
+
+
 def oracle_c11(res, r, tier, td, info, harvested):
     per_inst = {}
     muts = mutations_of_valid(info, td, r, tier, harvested)
     for inst in I.INSTANCES:
         per_inst[inst.name] = instance_inputs(info, inst, r, tier, harvested) + muts.get(inst.name, [])
+    amp = amplified(td, harvested)
+    res.stats.hit('amplified_containers', len(amp))
+    per_inst['ls.attr'] = amp + per_inst['ls.attr']
     for name, fn, via_update in decoders(info):
         inputs = c11_inputs(info, name, r, tier, harvested, per_inst)
         if via_update:
